@@ -46,6 +46,9 @@ MUTANTS = [
     ('C01', 'supp/scope.py', r"            for name in star_names\(module\._attrs\):\n", "            for name in [n for n in module._attrs if not n.startswith('_')]:\n", 'C01-R7'),
     ('C16', 'supp/remote.py', r"            prepare_thread = self\.prepare_thread\n            if prepare_thread:\n                prepare_thread\.join\(\)\n\n            try:\n                self\.conn\n", "            try:\n                self.conn\n", 'C16-R5'),
     ('C16', 'supp/remote.py', r"                except \(OSError, EOFError\):\n                    pass  # the server is already gone\n                finally:\n                    self\.conn\.close\(\)\n                    del self\.conn\n", "                except ValueError:\n                    pass\n                self.conn.close()\n                del self.conn\n", 'C16-R5'),
+    ('C15', 'supp/server.py', r"except \(Exception, SystemExit\) as e:", "except Exception as e:", 'C15-R2'),
+    ('C16', 'supp/remote.py', r"                    self\.proc\.terminate\(\)\n", "", 'C16-R3'),
+    ('C12', 'supp/assistant.py', r"        try:\n            # the continuation line of `raise \.\.\. from` / `yield from` parses\n            source\.tree\n        except SyntaxError:\n", "        if True:\n", 'C12-R2'),
     # ---- C02
     ('C02', 'supp/scope.py', r"if len\(self\.parents\) == 1:", "if len(self.parents) >= 1:", 'C02-R4'),
     ('C02', 'supp/nast.py', r"self\.flow = self\.make_flow\('join', \[body, orelse\]\)", "self.flow = self.make_flow('join', [orelse])", 'C02-R1'),
@@ -146,7 +149,7 @@ MUTANTS = [
     ('C14', 'supp/umsgpack.py', r"        else:\n            raise UnsupportedTypeException\(\"huge unsigned int\"\)", "        else:\n            fp.write(b\"\\\\xcf\" + struct.pack(\">Q\", obj % 2**64))", 'C14-R2'),
     ('C14', 'supp/umsgpack.py', r'elif len\(obj\.data\) <= 2\*\*16-1:\n        fp\.write\(b"\\xc8" \+ struct\.pack\(">HB"', 'elif len(obj.data) <= 2**16-1:\n        fp.write(b"\\\\xc8" + struct.pack("<HB"', 'C14-R1'),
     # ---- C15
-    ('C15', 'supp/server.py', r"except Exception as e:\n            logger\.exception\('%s error', name\)", "except ValueError as e:\n            logger.exception('%s error', name)", 'C15-R2'),
+    ('C15', 'supp/server.py', r"except \(Exception, SystemExit\) as e:  # evaluated code may call sys\.exit\(\)\n            logger\.exception\('%s error', name\)", "except ValueError as e:\n            logger.exception('%s error', name)", 'C15-R2'),
     ('C15', 'supp/server.py', r"assistant\.assist\(self\.project, nstr\(source\), tuple\(position\), filename\)", "assistant.assist(self.project, nstr(source), filename, tuple(position))", 'C15-R1'),
     ('C15', 'supp/server.py', r"                    try:\n                        self\.conn\.send_bytes\(content\)\n                    except:\n                        logger\.exception\('Send error'\)", "                    self.conn.send_bytes(content)", 'C15-R3'),
     ('C15', 'supp/server.py', r"dumps\(\(\('SerializeError', 'Serialize error'\), False\)\)", "dumps((('SerializeError', result), False))", 'C15-R3'),
@@ -157,7 +160,7 @@ MUTANTS = [
     ('C16', 'supp/remote.py', r"            if not hasattr\(self, 'conn'\):\n                self\._run\(\)", "            self._run()", 'C16-R'),
     ('C16', 'supp/server.py', r"                except EOFError:\n                    break", "                except EOFError:\n                    continue", 'C16-R6'),
     ('C16', 'supp/server.py', r"                    conn\.close\(\)\n                    break", "                    conn.close()", 'C16-R6'),
-    ('C16', 'supp/remote.py', r"            self\.conn\.close\(\)\n            del self\.conn", "            self.conn.close()", 'C16-R5'),
+    ('C16', 'supp/remote.py', r"                    self\.conn\.close\(\)\n                    del self\.conn", "                    self.conn.close()", 'C16-R5'),
     ('C16', 'supp/remote.py', r"            prepare_thread = self\.prepare_thread\n            if prepare_thread:\n                prepare_thread\.join\(\)", "            if self.prepare_thread:\n                self.prepare_thread.join()", 'C16-R2'),
     ('C16', 'supp/remote.py', r"dumps\(\('close', \(\), \{\}\)\)", "dumps(('quit', (), {}))", 'C16-R5'),
     ('C16', 'supp/remote.py', r"dumps\(\('close', \(\), \{\}\)\)", "dumps(('close', (), {}), 2)", 'C16-R4'),
